@@ -6,6 +6,8 @@ import Mathlib.Data.List.Forall2
 import Mathlib.Tactic.Ring
 import Mathlib.Tactic.Linarith
 import DadiVerif.Model.PopOps
+/-! C10 helper lemmas: explicit re-indexing `pushL` as a Finset sum, composition and total of re-indexings (DESIGN App. L,
+    re-stated for the list-indexed model), index boxes, the index maps of marginalize / combine / reorder, labels. -/
 namespace DadiVerif.PopOps
 open Finset
 
